@@ -6,7 +6,7 @@ HOOKS = {
     "guard": "verif",
     "enable": "go build -tags verif (the harness module /verif/harness replaces github.com/specterops/dawgs => /repo and is rebuilt by every check)",
     "baseline_off_cmd": "cd /repo && GOFLAGS=-mod=mod GOPROXY=off go test -vet=off -count=1 -timeout 25m ./...",
-    "source_commits": ["22a8b05", "933ca3c", "ee166ed", "8068d0a", "a6b44aa"],
+    "source_commits": ["22a8b05", "933ca3c", "ee166ed", "8068d0a", "a6b44aa", "4842a08"],
     "add_only": True,
 }
 
